@@ -4,6 +4,7 @@
 //   (u) undef   (d) default   (b t|f)   (i N)   (f BITS)  IEEE-754 bits, decimal   (s xHEX)  string bytes
 //   (r xHEX) regexp source   (x xHEX) binary   (a v*) array   (h (k v)*) hash   (e k v) hash entry
 //   (mh (k v)*) a MutableHashValue built by NewMutableHash + Put (printed back as the hash with its entries)
+//   (ts NANOS) Timespan   (tm SECS NANOS) Timestamp (0 <= NANOS < 1e9)
 //   (sens v) sensitive   (t T) a type as a value, T one of
 //       (int lo hi)  (flt loBITS hiBITS)  str  any  undef  (enum ci xHEX*)  (arr T lo hi)  (var T*)  (tup (T*)) | (tup (T*) lo hi)
 //       (opt T)  (typ T)
@@ -15,6 +16,8 @@
 //   key x        hex of px.ToKey(x)                                                     → "x<hex>" | "reported INVALID_HASH_KEY"
 //   get H k      H.Get(k)                                                               → "some <value>" | "none"
 //   unique xs    Array.Unique                                                           → "(a v*)"
+//   @veq / @veq3 / @vkey / @vget / @vunique   implementation only: the same five ops over the value kinds that have no model
+//                counterpart: (uri xHEX) URI, (ver xHEX) SemVer (mixed with the modelled kinds)
 //   @teq s t / @teq3 s t u   implementation only: the same laws on types given as *type expressions* (hex strings parsed by
 //                c.ParseType), for the type kinds that have no model counterpart (String[n], Struct, Hash, Pattern, Callable …)
 // The property predicate is evaluated directly on the implementation for every op (see `exec`).
@@ -27,6 +30,7 @@ import (
 	"math/rand"
 	"strconv"
 	"strings"
+	"time"
 
 	"verif/harness/core"
 	"verif/harness/sx"
@@ -34,6 +38,7 @@ import (
 	"github.com/lyraproj/issue/issue"
 	"github.com/lyraproj/pcore/px"
 	"github.com/lyraproj/pcore/types"
+	"github.com/lyraproj/semver/semver"
 )
 
 func init() {
@@ -157,6 +162,14 @@ func valOf(e sx.Sexp) px.Value {
 		return m
 	case "e":
 		return types.WrapHashEntry(valOf(a[0]), valOf(a[1]))
+	case "ts":
+		return types.WrapTimespan(time.Duration(a[0].MustInt()))
+	case "tm":
+		return types.WrapTimestamp(time.Unix(a[0].MustInt(), a[1].MustInt()).UTC())
+	case "uri":
+		return types.WrapURI2(a[0].MustStr())
+	case "ver":
+		return types.WrapSemVer(semver.MustParseVersion(a[0].MustStr()))
 	case "sens":
 		return types.WrapSensitive(valOf(a[0]))
 	case "t":
@@ -264,6 +277,14 @@ func valStr(v px.Value) string {
 		return "(e " + valStr(v.Key()) + " " + valStr(v.Value()) + ")"
 	case *types.Sensitive:
 		return "(sens " + valStr(v.Unwrap()) + ")"
+	case types.Timespan:
+		return fmt.Sprintf("(ts %d)", int64(v.Duration()))
+	case *types.Timestamp:
+		return fmt.Sprintf("(tm %d %d)", v.Time().Unix(), v.Time().Nanosecond())
+	case *types.UriValue:
+		return "(uri " + sx.Str(v.URL().String()).Atom + ")"
+	case *types.SemVer:
+		return "(ver " + sx.Str(v.Version().String()).Atom + ")"
 	case px.Type:
 		return "(t " + typeStr(v) + ")"
 	}
@@ -598,6 +619,10 @@ func pairFail(out, law, detail string, ex, ey sx.Sexp, x, y px.Value) core.Resul
 // ---- ops ---------------------------------------------------------------------------------------------------
 
 func exec(c px.Context, op string, args []sx.Sexp) core.Result {
+	switch op { // the implementation-only twins run the very same predicates
+	case "veq", "veq3", "vkey", "vget", "vunique":
+		op = op[1:]
+	}
 	switch op {
 	case "eq":
 		ex, ey := args[0], args[1]
@@ -1000,6 +1025,8 @@ func universe() []sx.Sexp {
 		hv(fv(0), iv(1)), hv(fv(negZero), iv(1)), hv(hv(sv("a"), iv(1), sv("b"), iv(2)), iv(1)), hv(hv(sv("b"), iv(2), sv("a"), iv(1)), iv(1)),
 		ent(sv("a"), sv("b")), ent(av(), av()), ent(ent(iv(1), iv(2)), iv(3)),
 		sx.T("sens", sv("a")), av(sx.T("sens", iv(1))),
+		mk("(ts 0)"), mk("(ts 1000000000)"), mk("(ts 1500000000)"), mk("(ts -1500000000)"), mk("(ts 999999999)"), mk("(ts -999999999)"),
+		mk("(tm 0 0)"), mk("(tm 0 1)"), mk("(tm 1 0)"), mk("(tm 1 500000000)"), mk("(tm -1 999999999)"), av(mk("(ts 1000000000)")), hv(mk("(tm 1 0)"), iv(1)),
 		sx.T("mh"), sx.T("mh", sx.L(sv("a"), iv(1))), sx.T("mh", sx.L(sv("b"), iv(2)), sx.L(sv("a"), iv(1))), av(sx.T("mh", sx.L(sv("a"), iv(1)))),
 		tv("(int "+minS+" "+maxS+")"), tv("(int 1 "+maxS+")"), tv("(int "+minS+" 2)"), tv("(int 0 0)"),
 		tv("str"), tv("any"), tv("undef"), tv("(flt "+fbits(-math.MaxFloat64)+" "+fbits(math.MaxFloat64)+")"), tv("(flt "+fbits(1)+" "+fbits(2)+")"),
@@ -1097,7 +1124,11 @@ func randType(r *rand.Rand, depth int) string {
 }
 
 func randLeaf(r *rand.Rand) sx.Sexp {
-	switch r.Intn(12) {
+	switch r.Intn(14) {
+	case 12:
+		return sx.T("ts", sx.Int([]int64{0, 1, 999999999, 1000000000, 1500000000, -1, -1000000000, -1500000000, 86400000000000, math.MaxInt64, math.MinInt64}[r.Intn(11)]))
+	case 13:
+		return sx.T("tm", sx.Int([]int64{0, 1, -1, 1500000000, 253402300799}[r.Intn(5)]), sx.Int([]int64{0, 1, 500000000, 999999999}[r.Intn(4)]))
 	case 0:
 		return mk("(u)")
 	case 1:
@@ -1292,6 +1323,25 @@ func mutate(r *rand.Rand, e sx.Sexp) sx.Sexp {
 			return av(sv(s))
 		}
 		return sv(strings.ToUpper(s) + "\x00")
+	case "ts":
+		n := a[0].MustInt()
+		switch r.Intn(4) {
+		case 0: // within the same second (Equal: a Timespan is compared by whole seconds)
+			return sx.T("ts", sx.Int(n/1000000000*1000000000))
+		case 1:
+			return sx.T("ts", sx.Int(n^(1<<uint(r.Intn(40)))))
+		case 2:
+			return iv(n / 1000000000)
+		}
+		return sx.T("tm", sx.Int(n/1000000000), sx.Int(0))
+	case "tm":
+		switch r.Intn(3) {
+		case 0:
+			return sx.T("tm", a[0], sx.Int((a[1].MustInt()+1)%1000000000))
+		case 1:
+			return sx.T("tm", sx.Int(a[0].MustInt()+1), a[1])
+		}
+		return sx.T("ts", sx.Int(a[0].MustInt()))
 	case "x":
 		return sx.T("s", a[0])
 	case "r":
@@ -1478,6 +1528,168 @@ func mutType(r *rand.Rand, t sx.Sexp) sx.Sexp {
 	return mk(randType(r, 1))
 }
 
+// ---- length-boundary shapes -------------------------------------------------------------------------------------
+//
+// A container frames every element as <uvarint length><key>.  The shapes below put the *length fields* on their
+// boundaries (one byte ↔ two ↔ three: key lengths 127/128, 255/256/257, 16383/16384) and pair every such container with
+// the counterparts that are distinct values but would get the same bytes if a length field were truncated, mis-sized or
+// ignored: the same elements regrouped at every split point, and a *forged string element* whose content is the byte
+// image of the frames of the following elements.  The reference encoder is the harness's own (it must not depend on the
+// implementation under test, which may be the thing that is wrong).
+
+func refUvarint(n int) []byte {
+	out := []byte{}
+	for n >= 128 {
+		out = append(out, byte(n%128+128))
+		n /= 128
+	}
+	return append(out, byte(n))
+}
+
+// refMK: the marked key of an element (kinds b i s u a only)
+func refMK(e sx.Sexp) []byte {
+	a := e.Args()
+	switch e.Tag() {
+	case "u":
+		return []byte{1, 'u'}
+	case "b":
+		if a[0].MustBool() {
+			return []byte{1, 'b', 1}
+		}
+		return []byte{1, 'b', 0}
+	case "i":
+		n := uint64(a[0].MustInt())
+		out := []byte{1, 'i'}
+		for s := 56; s >= 0; s -= 8 {
+			out = append(out, byte(n>>uint(s)))
+		}
+		return out
+	case "s":
+		return append([]byte{1, 's'}, []byte(a[0].MustStr())...)
+	case "a":
+		out := []byte{0, 'A'}
+		for _, k := range a {
+			out = append(out, refElem(k)...)
+		}
+		return out
+	}
+	panic(fmt.Errorf("refMK: kind %s", e.Tag()))
+}
+
+func refElem(e sx.Sexp) []byte {
+	k := refMK(e)
+	return append(refUvarint(len(k)), k...)
+}
+
+// fill: elements (a string first, then booleans / an integer now and then) whose frames add up to exactly total bytes;
+// big = most of the room is taken by the string
+func fill(total int, big bool) []sx.Sexp {
+	from := 0
+	if big && total > 200 {
+		from = total - 120
+	}
+	for l := from; l < from+64; l++ {
+		first := sv(strings.Repeat("x", l))
+		rest := total - len(refElem(first))
+		if rest < 0 {
+			break
+		}
+		// rest = 4*bools + 11*ints
+		for ints := 0; ints < 4; ints++ {
+			if r := rest - 11*ints; r >= 0 && r%4 == 0 {
+				es := []sx.Sexp{first}
+				for i := 0; i < ints; i++ {
+					es = append(es, iv(int64(i)))
+				}
+				for i := 0; i < r/4; i++ {
+					es = append(es, sx.T("b", sx.Bool(i%2 == 0)))
+				}
+				return es
+			}
+		}
+	}
+	return nil
+}
+
+func boundaryPair(g *core.G, a, b sx.Sexp) {
+	g.Emit("eq " + a.String() + " " + b.String())
+	g.Emit("unique " + av(a, b, a).String())
+	g.Emit("get " + hv(a, iv(1)).String() + " " + b.String())
+}
+
+func boundaryShapes(g *core.G) {
+	targets := []int{124, 127, 128, 129, 252, 255, 256, 257, 260, 512, 16383, 16384, 16385}
+	for _, total := range targets {
+		for _, big := range []bool{false, true} {
+			if (total > 1000) != big && total > 1000 && !g.Thorough() {
+				continue // quick tier: the 16 KiB shapes only in their compact (big string) form
+			}
+			es := fill(total, big)
+			if es == nil {
+				continue
+			}
+			n := len(es)
+			whole := sx.T("a", es...)
+			g.Emit("key " + av(whole).String())
+			// split points: all of them for short lists, else the ends, the middle and wherever the frames of the
+			// suffix add up to a multiple of 128 (a length-field boundary)
+			splits := map[int]bool{0: true, 1: true, n / 2: true, n - 1: true, n: true}
+			suffix := 0
+			for j := n - 1; j >= 0; j-- {
+				suffix += len(refElem(es[j]))
+				if suffix%128 == 0 || n <= 70 {
+					splits[j] = true
+				}
+			}
+			count := 0
+			for j := 0; j <= n; j++ {
+				if !splits[j] || (total > 1000 && count >= 6) {
+					continue
+				}
+				count++
+				// [[e1..en]]  against  [[e1..ej], ej+1, .., en]   — once and twice nested
+				a := av(whole)
+				b := sx.T("a", append([]sx.Sexp{sx.T("a", es[:j]...)}, es[j:]...)...)
+				if a.String() == b.String() {
+					continue
+				}
+				boundaryPair(g, a, b)
+				if total < 1000 || j == 0 {
+					boundaryPair(g, av(a), av(b))
+					boundaryPair(g, hv(a, iv(1)), hv(b, iv(1)))
+					boundaryPair(g, ent(a, iv(1)), ent(b, iv(1)))
+				}
+			}
+			// the forged string: the first (string) element swallowing the frames of the elements after it
+			for _, j := range []int{1, n / 2} {
+				if j < 1 || j >= n {
+					continue
+				}
+				forged := es[0].Args()[0].MustStr()
+				for _, e := range es[1 : j+1] {
+					forged += string(refElem(e))
+				}
+				fs := append([]sx.Sexp{sv(forged)}, es[j+1:]...)
+				// and the other way round: everything after the first element swallowed
+				a := sx.T("a", fs...)
+				boundaryPair(g, whole, a)
+				boundaryPair(g, av(whole), av(a))
+			}
+			all := es[0].Args()[0].MustStr()
+			for _, e := range es[1:] {
+				all += string(refElem(e))
+			}
+			boundaryPair(g, whole, av(sv(all)))
+			boundaryPair(g, av(whole), av(av(sv(all))))
+			boundaryPair(g, hv(whole, iv(1)), hv(av(sv(all)), iv(1)))
+			// a string element on the boundary against its neighbours in length
+			l := total - 2
+			boundaryPair(g, av(sv(strings.Repeat("a", l))), av(sv(strings.Repeat("a", l+1))))
+			boundaryPair(g, av(sv(strings.Repeat("a", l))), av(sv(strings.Repeat("a", l)), sv("")))
+		}
+	}
+}
+
 func gen(g *core.G) {
 	r := g.Rng
 	u := universe()
@@ -1524,6 +1736,32 @@ func gen(g *core.G) {
 		a, b, cc := typeExprs[r.Intn(len(typeExprs))], typeExprs[r.Intn(len(typeExprs))], typeExprs[r.Intn(len(typeExprs))]
 		g.Emit("@teq3 " + sx.Str(a).Atom + " " + sx.Str(b).Atom + " " + sx.Str(cc).Atom)
 	}
+	// implementation-only: the value kinds without a model counterpart, crossed with each other and with core values,
+	// bare, as array elements and as hash keys
+	extra := []sx.Sexp{
+		mk("(ts 0)"), mk("(ts 1)"), mk("(ts 1000000000)"), mk("(ts 1500000000)"), mk("(ts -1000000000)"), mk("(ts 86400000000000)"),
+		mk("(tm 0 0)"), mk("(tm 0 1)"), mk("(tm 1 0)"), mk("(tm 1 500000000)"), mk("(tm -1 0)"), mk("(tm 1500000000 999999999)"),
+		sx.T("uri", sx.Str("http://example.com/a")), sx.T("uri", sx.Str("http://example.com/b")), sx.T("uri", sx.Str("file:///tmp/x")), sx.T("uri", sx.Str("http://example.com/a?q=1")),
+		sx.T("ver", sx.Str("1.0.0")), sx.T("ver", sx.Str("1.0.1")), sx.T("ver", sx.Str("1.0.0-rc1")), sx.T("ver", sx.Str("1.0.0+b1")), sx.T("ver", sx.Str("1.0.0+b2")),
+		iv(0), iv(1), fv(1), sv("1.0.0"), sv("http://example.com/a"), av(), hv(),
+	}
+	for _, x := range extra {
+		g.Emit("@vkey " + x.String())
+		for _, y := range extra {
+			g.Emit("@veq " + x.String() + " " + y.String())
+			g.Emit("@veq " + av(x, iv(1)).String() + " " + av(y, iv(1)).String())
+			g.Emit("@vunique " + av(x, y, x).String())
+			g.Emit("@vget " + hv(x, iv(1)).String() + " " + y.String())
+			if s, ok := keyImage(x); ok {
+				g.Emit("@veq " + av(s).String() + " " + av(y).String())
+			}
+		}
+	}
+	for i := 0; i < 3000*g.Scale; i++ {
+		g.Emit("@veq3 " + extra[r.Intn(len(extra))].String() + " " + extra[r.Intn(len(extra))].String() + " " + extra[r.Intn(len(extra))].String())
+	}
+	// length-field boundaries with their regrouped / forged counterparts
+	boundaryShapes(g)
 	// 2. structured random cases: related pairs on purpose
 	n := 2500 * g.Scale
 	for i := 0; i < n; i++ {
